@@ -535,6 +535,11 @@ def InterceptPrintsDuringPromptCtx(ip):
             # This could be a Jupyter console/notebook.
             return NullCtx()
 
+        if not hasattr(ip, "pt_cli"):
+            # Newer IPython (no ``pt_cli``) without prompt_toolkit's stdout
+            # proxy, e.g. --simple-prompt: nothing to redisplay.
+            return NullCtx()
+
         def pre():
             sys.stdout.write("\n")
             sys.stdout.flush()
